@@ -177,7 +177,9 @@ func checkLoop(t ev.T, test string, c LoopCase) {
 	n := len(recs)
 	// reference
 	if !c.Enabled {
-		if n != 1 {
+		if c.PreDone && n == 0 {
+			// the context was already done at the call: no attempt, as when retries are enabled
+		} else if n != 1 {
 			ev.Fail(t, prop, test, c, "retries disabled: %d attempts, want exactly 1", n)
 		}
 	}
@@ -202,7 +204,7 @@ func checkLoop(t ev.T, test string, c LoopCase) {
 				ev.Fail(t, prop, test, c, "attempt %d failed with a non-retriable error but attempt %d was made", i, i+1)
 			}
 		}
-		if i > 0 && r.ctxDoneAtStart && c.Enabled {
+		if r.ctxDoneAtStart && (i > 0 || c.PreDone) {
 			ev.Fail(t, prop, test, c, "attempt %d was started although the context was already done (it ended during attempt %d)", i, firstDone(recs))
 		}
 	}
@@ -226,8 +228,17 @@ func checkLoop(t ev.T, test string, c LoopCase) {
 		lastOutcome := recs[n-1].outcome
 		ctxEnded := dctx.Err() != nil
 		switch {
+		case !c.Enabled && lastOutcome == oFatal && strings.HasPrefix(c.FatalKind, "ctx-"):
+			// one attempt, whose own context error is reported as the kind like everywhere else
+			want := commonerrors.ErrTimeout
+			if c.FatalKind == "ctx-cancel" {
+				want = commonerrors.ErrCancelled
+			}
+			if !commonerrors.Any(res, want) {
+				ev.Fail(t, prop, test, c, "retries disabled: the only attempt failed with a context error (%v) but the result %q is not of kind %v", errFatal, res, want)
+			}
 		case !c.Enabled:
-			// fn's error is returned as it is
+			// the error of the only attempt
 			if !errors.Is(res, errRetriable) && !errors.Is(res, errFatal) {
 				ev.Fail(t, prop, test, c, "retries disabled: result %v is not the error of the only attempt", res)
 			}
